@@ -66,7 +66,10 @@ def mk(kind, d):
     if kind == "inv":
         return {"type": int(d["type"]), "hash": mkbytes(d["hash"])}
     if kind == "tx":
-        return tx_from_alpha(d)
+        r = tx_from_alpha(d)
+        if d.get("carries_unspents"):
+            r = dict(r, carries_unspents=True)       # the Tx object handed to pack() has its spent outputs attached (as after create_tx)
+        return r
     if kind == "block":
         return block_from_alpha(d)
     if kind == "header":
@@ -102,7 +105,10 @@ def to_py(kind, v, net):
         from pycoin.message.InvItem import InvItem
         return InvItem(v["type"], v["hash"], dont_check=True)
     if kind == "tx":
-        return build_tx(net.tx, v)
+        t = build_tx(net.tx, v)
+        if v.get("carries_unspents"):
+            t.set_unspents([net.tx.TxOut(1000 + i, b"\x51\x52") for i in range(len(t.txs_in))])
+        return t
     if kind == "header":
         b = build_header(net.block, v["header"] if "header" in v else v)
         if v.get("carries_txs"):
@@ -163,6 +169,8 @@ def norm_ref(kind, v):
         return {"services": v["services"], "ip": wire.ip16(v["ip"]), "port": v["port"]}
     if kind == "header":
         return {k: x for k, x in v.items() if k != "carries_txs"}
+    if kind == "tx":
+        return {k: x for k, x in v.items() if k != "carries_unspents"}
     if isinstance(kind, (tuple, list)) and kind[0] == "array":
         ek = kind[1]
         if isinstance(ek, (tuple, list)):
@@ -218,7 +226,7 @@ def alphabets(tier, seed):
     types = [1, 2, 3, 4, 1 | 1 << 30, 2 | 1 << 30, 0, U32]
     A["inv"] = [{"type": t, "hash": h} for t in types for h in (ASYM, "00" * 32)]
     A["tx"] = [{"kind": "legacy", "salt": 0}, {"kind": "witness", "salt": 1}, {"kind": "wide", "salt": 2}, {"kind": "big", "salt": 3},
-               {"kind": "coinbase", "salt": 4}]
+               {"kind": "coinbase", "salt": 4}, {"kind": "witness", "salt": 1, "carries_unspents": True}]
     A["tx-more"] = A["tx"] + [{"kind": "witness", "salt": 2}, {"kind": "noout", "salt": 4}, {"kind": "out253", "salt": 5},
                               {"kind": "in253", "salt": 6}, {"kind": "heavy", "salt": 7}, {"kind": "legacy", "salt": 255}]
     hdr = [dict(version=1, prev=ASYM, merkle=S if S != ASYM else ASYM[::-1], time=1231006505, bits=0x1d00ffff, nonce=2083236893),
@@ -451,6 +459,18 @@ class Messages(Driver):
                 ck = kind_label(kinds[culprits[0]]) if len(culprits) == 1 else "several" if culprits else "unknown"
                 return BAD("pack-differs", "pack() = %s" % short(ref), "%s; %s" % (short(got), first_diff(ref, got)),
                            clause="codec:" + ck, kind="pack", field=culprits)
+            # keyword arguments in another textual order (reversed, sorted by name): the wire order is the layout's
+            py = {f: to_py(kinds[f], v, net) for f, v in R.items()}
+            for oname, keys in (("reversed", list(reversed(list(py)))), ("sorted", sorted(py))):
+                if keys == list(py):
+                    continue
+                try:
+                    got2 = bytes(net.message.pack(msg, **{k: py[k] for k in keys}))
+                except Exception as e:
+                    return BAD("pack-raises", "pack() with keyword arguments in %s order = %s" % (oname, short(ref)), exc(e), clause="codec:kwargs-order", kind="pack")
+                if got2 != ref:
+                    return BAD("pack-differs", "pack() with keyword arguments in %s order = %s" % (oname, short(ref)),
+                               "%s; %s" % (short(got2), first_diff(ref, got2)), clause="codec:kwargs-order", kind="pack")
             return OK("pack:" + label + (":empty" if not layout else ""))
 
         # parse
